@@ -622,9 +622,9 @@ class Interp:
         try:
             self.exec_block(body, frame, types)
         except _DefeatUnwind:
-            # frame and array stack as they were at try entry
-            del frame[outer_frames:]
-            del types[outer_frames:]
+            # frame and array stack as they were at try entry (inner scopes
+            # were popped while the defeat unwound through them)
+            assert len(frame) == outer_frames
             d = self.defeat_depth - depth_at_entry
             if d > self.stats['stop_handler_depth_max']:
                 self.stats['stop_handler_depth_max'] = d
